@@ -284,3 +284,130 @@ def cases_c17(ctx):
                     hs.append((pre + [RUN(), EDIT("struct_field_type"), RUN(fault=f), EDIT("struct_field_type", -1), RUN(), RUN()], build))
                     hs.append((pre + [RUN(fault=f), RUN(fault=(f + 1) % (nfiles + 1)), RUN()], build))
     return history_cases(hs, ctx, extra_oracle=fault_oracle)
+
+
+# ----------------------------------------------------------------------------------------------- C16
+SPEC_RESERVED = {b + e for b in ("types", "commands", "events", "index", "schemas", "models", "bindings") for e in (".ts", ".d.ts")} | {
+    ".typecache", "dependency-graph.txt", "dependency-graph.dot"}
+
+
+def spec_reserved(name):
+    return name in SPEC_RESERVED or name.startswith("generated_") or "_generated" in name
+
+
+FOREIGN = ["notes.ts", "types.tsx", "mytypes.ts", "README.md", ".write_test", ".typecache.bak", "typesXts", "index.tsx",
+           "generated", "Types.ts", "commands.ts.orig", "events.js", "x-generated.txt", ".gitkeep"]
+RESERVED_DECOYS = ["models.ts", "bindings.d.ts", "generated_old.ts", "x_generated.md", "schemas.ts"]
+
+
+def model_allows(tables, n):
+    """the extracted model of what the tool may touch inside the output directory"""
+    if tables is None:
+        return True
+    own = set(tables["written_files"]) | set(tables["viz_files"]) | set(tables["cache_file"]) | set(tables["write_probe"])
+    return (n in own or n in tables["generated_literals"] or any(n.startswith(p) for p in tables["generated_prefixes"])
+            or any(p in n for p in tables["generated_infixes"]) or any(n.endswith(p) for p in tables["generated_suffixes"]))
+
+
+def c16_case(layout, path_kind, mode, seq, seed, tables=None):
+    """layout: where the output directory lives; seq: list of actions"""
+    root = proc.sandbox("c16")
+    try:
+        proj = os.path.join(root, "proj")
+        p = projgen.make_project(seed, 2)
+        proc.write_files(os.path.join(proj, "src-tauri"), projgen.render(p))
+        proc.write_files(proj, {"tauri.conf.json": json.dumps({"productName": "demo", "plugins": {"other": {"k": [1, 2]}}}, indent=2),
+                                "package.json": "{}", "src/main.ts": "console.log(1)\n", "../sibling.txt": "outside\n"})
+        out_rel = {"beside": "out", "nested": "src-tauri/generated", "deep": "web/src/lib/bindings", "up": "../outside_out"}[layout]
+        out_abs = os.path.normpath(os.path.join(proj, out_rel))
+        os.makedirs(out_abs, exist_ok=True)
+        for n in FOREIGN + RESERVED_DECOYS:
+            q = os.path.join(out_abs, n)
+            if n == "generated":
+                os.makedirs(q, exist_ok=True)
+                open(os.path.join(q, "types.ts"), "w").write("// foreign file in a subdirectory\n")
+            else:
+                open(q, "w").write("foreign %s\n" % n)
+        out_arg = out_abs if path_kind == "abs" else out_rel
+        with open(os.path.join(proj, "typegen.json"), "w") as fh:
+            json.dump({"project_path": "src-tauri", "output_path": out_arg, "validation_library": mode}, fh)
+        violations = []
+        unmodelled = []
+        log = []
+        for act in seq:
+            before = proc.snapshot(root)
+            cfg_touched = None
+            if act == "generate":
+                rc, so, se = proc.run_cli(proj, ["generate", "-c", "typegen.json"])
+            elif act == "generate_viz":
+                rc, so, se = proc.run_cli(proj, ["generate", "-p", "src-tauri", "-o", out_arg, "-v", mode, "--visualize-deps", "--force"])
+            elif act == "build":
+                rc, so, se = proc.run_build(proj)
+            elif act == "init":
+                rc, so, se = proc.run_cli(proj, ["init", "-p", "src-tauri", "-g", out_arg, "-v", mode])
+                cfg_touched = os.path.relpath(os.path.join(proj, "src-tauri", "tauri.conf.json"), root)
+            elif act == "init_custom":
+                rc, so, se = proc.run_cli(proj, ["init", "-p", "src-tauri", "-g", out_arg, "-o", "my-typegen.json", "-v", mode])
+                cfg_touched = os.path.relpath(os.path.join(proj, "my-typegen.json"), root)
+            elif act == "drop_commands":
+                shutil.rmtree(os.path.join(proj, "src-tauri"))
+                proc.write_files(os.path.join(proj, "src-tauri"), {"lib.rs": "pub fn helper() {}\n"})
+                continue
+            elif act == "need_conf":
+                proc.write_files(os.path.join(proj, "src-tauri"), {"tauri.conf.json": json.dumps({"identifier": "x", "plugins": {}})})
+                continue
+            after = proc.snapshot(root)
+            out_in_root = os.path.relpath(out_abs, root)
+            for path in sorted(set(before) | set(after)):
+                if before.get(path) == after.get(path):
+                    continue
+                if path.endswith("/"):
+                    # directories: only the output directory chain may be created
+                    if (out_in_root + "/").startswith(path):
+                        continue
+                    violations.append((act, path, "directory created/removed"))
+                    continue
+                d, n = os.path.split(path)
+                if d == out_in_root and not model_allows(tables, n):
+                    unmodelled.append((act, path))
+                if d == out_in_root and spec_reserved(n):
+                    continue
+                if cfg_touched and path == cfg_touched:
+                    continue
+                violations.append((act, path, "created" if path not in before else ("deleted" if path not in after else "modified")))
+            log.append((act, rc))
+        classes = []
+        if any(v[1].endswith("/.write_test") for v in violations) and all(v[1].endswith("/.write_test") for v in violations):
+            classes.append("K16a_writeProbe")
+        return Case({"layout": layout, "path": path_kind, "mode": mode, "seq": seq, "seed": seed},
+                    {"only_own_files_touched": not violations}, classes,
+                    detail={"violations": violations[:10], "log": log, "outside_extracted_model": unmodelled[:10]},
+                    agree=not unmodelled)
+    finally:
+        proc.cleanup(root)
+
+
+def cases_c16(ctx):
+    tier, seed = ctx["tier"], ctx["seed"]
+    if ctx["replay"]:
+        d = ctx["replay"]["replay_case"]
+        return [c16_case(d["layout"], d["path"], d["mode"], d["seq"], d["seed"], ctx["tables"])]
+    seqs = [
+        ["generate", "generate"],
+        ["generate_viz", "generate"],
+        ["build", "build"],
+        ["generate", "drop_commands", "build", "generate"],
+        ["need_conf", "init", "generate"],
+        ["init_custom", "build"],
+        ["build", "drop_commands", "build"],
+    ]
+    jobs = []
+    k = 0
+    for layout in ("beside", "nested", "deep", "up"):
+        for path_kind in ("rel", "abs"):
+            for seq in seqs:
+                k += 1
+                if tier != "thorough" and k % 2 == 0 and layout in ("deep",):
+                    continue
+                jobs.append((layout, path_kind, ("none", "zod")[k % 2], seq, seed * 10 + k % 3, ctx["tables"]))
+    return list(POOL.map(lambda a: c16_case(*a), jobs))
